@@ -728,8 +728,8 @@ func checkFilterCallbackReturns(c *core.Ctx, rule, key string, fn *ssa.Function)
 			c.Check(ok, rule, k, r.Pos(), "callback continues, propagates the consumer's decision, or stops after delivering an error", why)
 		}
 	}
-	for _, f := range facts.WithAnon(fn) {
-		if f == fn || f.Signature.Params().Len() != 2 || !isBoolRes(f) {
+	for _, f := range withHelpers(fn) {
+		if f == fn || f.Parent() == nil || f.Signature.Params().Len() != 2 || !isBoolRes(f) {
 			continue
 		}
 		if f.Signature.Params().At(1).Type().String() != "error" {
@@ -1006,4 +1006,58 @@ func condsAtUp(b *ssa.BasicBlock, depth int) []facts.Cond {
 		common = keep
 	}
 	return append(out, common...)
+}
+
+// constIntsOf: the integer constants v can be: itself a constant, a phi of
+// such, or the result of a private helper all of whose returns (for that
+// result) are such. ok is false if any possibility is not a constant.
+func constIntsOf(v ssa.Value, depth int) (vals []int64, ok bool) {
+	v = facts.Resolve(v)
+	if k, isK := facts.ConstInt(v); isK {
+		return []int64{k}, true
+	}
+	if depth <= 0 {
+		return nil, false
+	}
+	switch x := v.(type) {
+	case *ssa.Phi:
+		for _, e := range x.Edges {
+			vs, okE := constIntsOf(e, depth-1)
+			if !okE {
+				return nil, false
+			}
+			vals = append(vals, vs...)
+		}
+		return vals, len(vals) > 0
+	case *ssa.Call:
+		return helperConstResults(x, 0, depth)
+	case *ssa.Extract:
+		if call, isCall := x.Tuple.(*ssa.Call); isCall {
+			return helperConstResults(call, x.Index, depth)
+		}
+	case *ssa.ChangeType:
+		return constIntsOf(x.X, depth)
+	case *ssa.Convert:
+		return constIntsOf(x.X, depth)
+	}
+	return nil, false
+}
+
+func helperConstResults(call *ssa.Call, idx int, depth int) ([]int64, bool) {
+	h := call.Call.StaticCallee()
+	if h == nil || h.Blocks == nil || len(privateCallSites(h)) == 0 {
+		return nil, false
+	}
+	var vals []int64
+	for _, r := range returnsOf(h) {
+		if idx >= len(r.Results) {
+			return nil, false
+		}
+		vs, ok := constIntsOf(facts.RetVal(r, idx), depth-1)
+		if !ok {
+			return nil, false
+		}
+		vals = append(vals, vs...)
+	}
+	return vals, len(vals) > 0
 }
